@@ -283,6 +283,11 @@ class Program:
         else:
             p = strip_generics(path)
             segs = [x for x in p.split('::') if x and x != '_']
+            # trait default methods: `module::Trait::method` -> `Trait::method`
+            for i_, sg in enumerate(segs[:-1]):
+                if sg in self.traits and i_ > 0:
+                    segs = segs[i_:]
+                    break
             b.names = segs
             fid = '::'.join(segs)
         b.fid = fid
